@@ -135,6 +135,11 @@ Op Gen::primerFor(const Op &op) {
         pr.dbls[0] = std::max(-PI / 2, std::min(PI / 2, pr.dbls[0] + dist * sin(ang)));
         pr.dbls[1] = wrapLng(pr.dbls[1] + dist * cos(ang) / std::max(0.05, cos(pr.dbls[0])));
         if (pr.fn == FN_latLngToCell && !pr.ints.empty() && r.chance(0.5)) pr.ints[0] = (int64_t)r.below(16);
+    } else if (!pr.loops.empty() && pr.loops[0].size() >= 3 && r.chance(0.35)) {
+        // the same polygon object first at a coarser resolution and/or in another containment mode
+        if (!pr.ints.empty()) pr.ints[0] = std::max<int64_t>(0, pr.ints[0] - (int64_t)r.range(1, 3));
+        if (pr.ints.size() > 1 && (pr.fn == FN_polygonToCellsExperimental || pr.fn == FN_maxPolygonToCellsSizeExperimental))
+            pr.ints[1] = (int64_t)r.below(4);
     } else if (!pr.loops.empty() && pr.loops[0].size() >= 3) {
         // the caller re-uses its polygon buffers: same object, same counts, same first and last vertex, other
         // vertices edited in place (the simulator hands every call of a task its inputs at the same addresses)
@@ -701,6 +706,13 @@ void Gen::polygonAround(LatLng c, double R, Op &op) {
         op.loops.push_back(hole);
     }
     op.tag += "-h" + std::to_string(nh);
+    // GeoJSON-style closed rings: the first vertex repeated, bit for bit, at the end (outer loop, holes, or both)
+    if (r.chance(0.15)) {
+        int which = (int)r.below(3);
+        for (size_t i = 0; i < op.loops.size(); i++)
+            if (!op.loops[i].empty() && (which == 2 || (which == 0) == (i == 0))) op.loops[i].push_back(op.loops[i].front());
+        op.tag += "+closed-rings";
+    }
 }
 
 Op Gen::polygonOp(int fn, int maxCells) {
